@@ -254,6 +254,8 @@ Holds(e, name) ==
          C11_Ordering(g, FaceFieldOf(g, o.harmmean), FaceFieldOf(g, o.geomean), FaceFieldOf(g, o.arithmean))
     [] name = "C11_Constants" ->
          \A k \in DOMAIN o.constmeans : C11_Const(g, cf.const, FaceFieldOf(g, o.constmeans[k]))
+    [] name = "C11_Homogeneous" -> \A k \in DOMAIN o.meanflags.homogeneous : o.meanflags.homogeneous[k]
+    [] name = "C11_InputForms"  -> \A k \in DOMAIN o.meanflags.forms : o.meanflags.forms[k]
     [] name = "C11_LinearExact" ->
          C11_LinearExact(g, cf.lin_alpha, cf.lin_beta, FaceFieldOf(g, o.linmean_linear))
     [] name = "C06_SourceSolve" ->
